@@ -562,8 +562,13 @@ Proof.
   { revert c Hc H0. intros c Hc _. revert c Hc. apply forallb_bytes. vm_compute. reflexivity. }
   destruct (c =? 0) eqn:E; [lia|]. apply list_eqb_eq, H.
 Qed.
-Lemma username_table_is_mimeblob : bm_username_quote = bm_mimeblob.
-Proof. vm_compute. reflexivity. Qed.
+Lemma user_entry_table c : c < 256 -> c <> 0 -> user_entry c = tbl_entry bm_username_quote c.
+Proof.
+  intros Hc H0.
+  assert (H : (c =? 0) || list_eqb (user_entry c) (tbl_entry bm_username_quote c) = true).
+  { revert c Hc H0. intros c Hc _. revert c Hc. apply forallb_bytes. vm_compute. reflexivity. }
+  destruct (c =? 0) eqn:E; [lia|]. apply list_eqb_eq, H.
+Qed.
 
 (* the dispatch of Format::assemble and Token::parse as regenerated from the source *)
 Lemma quoting_switch_table :
@@ -766,9 +771,88 @@ Proof.
     apply andb_prop in H. apply H.
 Qed.
 
-(* but a space passes as it is: outside brackets the field is not delimited (finding F11) *)
-Theorem mime_passes_space : mime_blob [97; 32; 98] = [97; 32; 98] /\ username_quote (Some [97; 32; 98]) = Some [97; 32; 98].
-Proof. split; reflexivity. Qed.
+(* a space passes the mime-blob style as it is: outside brackets such a field is not delimited.  This is the
+   documented behaviour of the style (cf.data.pre: SP is not encoded); it concerns custom logformats that use a
+   bare %[code.  The user-name field of the built-in format goes through QuoteUrlEncodeUsername instead (below). *)
+Theorem mime_passes_space : mime_blob [97; 32; 98] = [97; 32; 98].
+Proof. reflexivity. Qed.
+
+(* ---------- the user-name field (QuoteUrlEncodeUsername) ---------- *)
+(* the two-pass definition is the per-byte rule user_entry *)
+Lemma encode_spaces_app a b : encode_spaces (a ++ b) = encode_spaces a ++ encode_spaces b.
+Proof. unfold encode_spaces. rewrite map_app, concat_app. reflexivity. Qed.
+
+Lemma encode_spaces_mime_entry c : encode_spaces (mime_entry c) = user_entry c.
+Proof.
+  unfold user_entry. destruct (c =? 32) eqn:E; [apply N.eqb_eq in E; subst c; reflexivity|].
+  unfold mime_entry.
+  destruct (c =? 13); [reflexivity|]. destruct (c =? 10); [reflexivity|].
+  destruct ((c <=? 31) || (127 <=? c) || (c =? 37) || (c =? 91) || (c =? 93)).
+  - unfold encode_spaces, space_entry. cbn [map concat app].
+    pose proof (hex_lower_ge (c / 16)). pose proof (hex_lower_ge (c mod 16)).
+    replace (hex_lower (c / 16) =? 32) with false by (symmetry; apply N.eqb_neq; lia).
+    replace (hex_lower (c mod 16) =? 32) with false by (symmetry; apply N.eqb_neq; lia). reflexivity.
+  - destruct (c =? 92); [reflexivity|]. unfold encode_spaces, space_entry. cbn [map concat app]. rewrite E. reflexivity.
+Qed.
+
+Lemma encode_spaces_mime_blob s : encode_spaces (mime_blob s) = concat (map user_entry (cstr s)).
+Proof.
+  unfold mime_blob. induction (cstr s) as [|c l IH]; [reflexivity|].
+  cbn [map concat]. rewrite encode_spaces_app, encode_spaces_mime_entry, IH. reflexivity.
+Qed.
+
+Definition user_out_ok (c : N) : bool := no_crlf c && no_sp c.
+Lemma user_alphabet s : forallb user_out_ok (concat (map user_entry (cstr s))) = true.
+Proof.
+  apply forallb_concat_map. intros c. unfold user_entry.
+  destruct (c =? 32) eqn:E32; [reflexivity|].
+  assert (Hcr : forallb no_crlf (mime_entry c) = true).
+  { destruct (c =? 0) eqn:E0; [apply N.eqb_eq in E0; subst c; reflexivity|].
+    pose proof (mime_no_crlf [c]) as H. unfold mime_blob in H. cbn [cstr] in H. rewrite E0 in H.
+    cbn [cstr map concat] in H. rewrite app_nil_r in H. exact H. }
+  assert (Hsp : forallb no_sp (mime_entry c) = true).
+  { unfold mime_entry, no_sp.
+    destruct (c =? 13); [reflexivity|]. destruct (c =? 10); [reflexivity|].
+    destruct ((c <=? 31) || (127 <=? c) || (c =? 37) || (c =? 91) || (c =? 93)).
+    - cbn [forallb]. pose proof (hex_lower_ge (c / 16)). pose proof (hex_lower_ge (c mod 16)).
+      replace (hex_lower (c / 16) =? 32) with false by (symmetry; apply N.eqb_neq; lia).
+      replace (hex_lower (c mod 16) =? 32) with false by (symmetry; apply N.eqb_neq; lia). reflexivity.
+    - destruct (c =? 92); [reflexivity|]. cbn [forallb]. rewrite E32. reflexivity. }
+  unfold user_out_ok. induction (mime_entry c) as [|x l IH]; [reflexivity|].
+  cbn [forallb] in *. apply andb_prop in Hcr. apply andb_prop in Hsp. destruct Hcr as [H1 H2]. destruct Hsp as [H3 H4].
+  rewrite H1, H3, (IH H2 H4). reflexivity.
+Qed.
+
+Lemma user_entries_rt c : c < 256 -> (c =? 0) || mime_item_rt c (user_entry c) = true.
+Proof. revert c. apply forallb_bytes. vm_compute. reflexivity. Qed.
+
+Lemma user_decodes s : bytes_ok s -> mime_decode (concat (map user_entry (cstr s))) = Some (cstr s).
+Proof.
+  intros Hb. pose proof (cstr_bytes_ok s Hb) as Hb'. pose proof (cstr_is_nul_free s) as Hn.
+  induction (cstr s) as [|c l IH]; [reflexivity|].
+  inversion Hb' as [|? ? Hc Hl]; inversion Hn as [|? ? Hc0 Hl0]; subst.
+  cbn [map concat]. pose proof (user_entries_rt c Hc) as H.
+  destruct (c =? 0) eqn:E; [apply N.eqb_eq in E; contradiction|]. cbn [orb] in H.
+  rewrite (mime_decode_item c _ _ H), (IH Hl Hl0). reflexivity.
+Qed.
+
+(* the user-name field of the built-in format: for EVERY user name, the logged form has no space and no line break,
+   is therefore delimited by the next space whatever follows, and decodes back to the name *)
+Theorem username_field_delimited name q rest : bytes_ok name -> username_quote (Some name) = Some q ->
+  forallb user_out_ok q = true /\
+  read_until 32 (q ++ 32 :: rest) = Some (q, rest) /\
+  mime_decode q = Some (cstr name).
+Proof.
+  intros Hb. unfold username_quote. destruct (is_empty (cstr name)); [discriminate|].
+  intros H. injection H as <-. rewrite encode_spaces_mime_blob.
+  pose proof (user_alphabet name) as Ha. split; [exact Ha|]. split.
+  - apply read_until_app. eapply forallb_weaken; [|exact Ha]. intros x Hx. unfold user_out_ok in Hx.
+    apply andb_prop in Hx. apply Hx.
+  - apply user_decodes, Hb.
+Qed.
+
+Theorem username_absent : username_quote None = None /\ forall n, cstr n = [] -> username_quote (Some n) = None.
+Proof. split; [reflexivity|]. intros n H. unfold username_quote. rewrite H. reflexivity. Qed.
 
 (* ---------- shell style ---------- *)
 Lemma read_quoted_shell_entry c r : c <> 0 ->
